@@ -105,7 +105,8 @@ def run(crate, filters, jobs=8, harness_timeout=300, outer_timeout=3600, mem_gb=
     if perr:
         return {"cmd": "(not run)", "rc": 2, "wall_s": 0.0, "outer_timeout": False, "raw_log": perr,
                 "harnesses": {}, "build_ok": False, "build_error": perr}
-    export = os.path.join(TARGET, f".export-{crate}-{os.getpid()}.json")
+    import threading
+    export = os.path.join(TARGET, f".export-{crate}-{os.getpid()}-{threading.get_ident()}-{int(time.time()*1000)%100000}.json")
     os.makedirs(TARGET, exist_ok=True)
     if os.path.exists(export):
         os.remove(export)
